@@ -568,3 +568,223 @@ def r07_7_duration_total_fields(ctx: Ctx) -> RuleResult:
             else:
                 rr.fail(f.qual, f"total field {unit}, {label} duration ({d} days + {n} ns in floor form): the formatted magnitude is {vals}, expected within [{lo}, {hi}] - the text then parses back to a different duration", f.loc)
     return rr
+
+
+# shared with C08: an embedded date/time pattern must hand every field of the parsed value to the outer bucket, or the text does
+# not parse back to the value that was formatted (home id R08.7)
+from .c08 import r08_7_embedded_fields as _r08_7  # noqa: E402
+
+rule("C07")(_r08_7)
+
+
+# ------------------------------------------------------------------------------------------- composite format predicates
+
+
+@rule("C07")
+def r07_9_offset_general_predicates(ctx: Ctx) -> RuleResult:
+    """The general Offset patterns (g / i) format with the shortest of three patterns; the predicate that selects a pattern without
+    a seconds (minutes) field must imply that the seconds (minutes and seconds) of the offset are zero, or that component is
+    silently dropped and the text parses back to another offset.
+    Decided per (pattern, predicate) pair of each CompositePatternBuilder call: the finest field of the pattern text (read from
+    the resource table) gives the required divisor m of offset.seconds; the predicate is accepted by form (`<mod>(offset.<unit>, C)
+    == 0` with C a multiple of m in that unit), otherwise it is evaluated by the abstract interpreter on exact offsets and a
+    definite counterexample (predicate true, seconds not divisible) is a violation; no counterexample on the sample leaves the
+    pair undecided (reported, not a proof)."""
+    from ..absint import Iv, Obj
+    from ..oblig import interp
+
+    rr = RuleResult("R07.9", "general Offset patterns: a predicate that selects a pattern without seconds / minutes implies those components are zero", min_instances=6)
+    M = ctx.M
+    par = M.cls("_OffsetPatternParser")
+    fi = M.cls("_PyodaFormatInfo")
+    unit = {"seconds": 1, "milliseconds": 1000, "ticks": 10_000_000, "nanoseconds": 1_000_000_000}
+
+    def pattern_text(prop: str) -> str | None:
+        g = M.find_method(fi, prop)
+        if g is None:
+            return None
+        for n in own_nodes(g.node):
+            if isinstance(n, ast.Call) and isinstance(n.func, ast.Attribute) and n.func.attr == "get_string" and n.args and isinstance(n.args[0], ast.Constant):
+                key = n.args[0].value
+                for mod in M.mods.values():
+                    if mod.rel.endswith("_pattern_resources.py"):
+                        for d in ast.walk(mod.tree):
+                            if isinstance(d, ast.Dict):
+                                for k, v in zip(d.keys, d.values):
+                                    if isinstance(k, ast.Constant) and k.value == key and isinstance(v, ast.Constant):
+                                        return v.value
+        return None
+
+    for f in par.all_defs:
+        if isinstance(f.node, ast.Lambda):
+            continue
+        for c in own_nodes(f.node):
+            if not (isinstance(c, ast.Call) and unparse(c.func).endswith("CompositePatternBuilder")):
+                continue
+            kw = {k.arg: k.value for k in c.keywords}
+            pats, preds = kw.get("patterns"), kw.get("format_predicates")
+            if not (isinstance(pats, ast.List) and isinstance(preds, ast.List) and len(pats.elts) == len(preds.elts)):
+                rr.inst()
+                rr.fail(f.qual, "CompositePatternBuilder call without matching literal pattern / predicate lists", ctx.loc(f, c))
+                continue
+            for pe, qe in zip(pats.elts, preds.elts):
+                rr.inst()
+                prop = next((a.attr for a in ast.walk(pe) if isinstance(a, ast.Attribute) and a.attr.startswith("offset_pattern_")), None)
+                text = pattern_text(prop) if prop else None
+                if text is None:
+                    rr.fail(f.qual, f"pattern text of `{unparse(pe)[:60]}` not found in the resource table", ctx.loc(f, pe))
+                    continue
+                m = 1 if "s" in text else 60 if "m" in text else 3600
+                # the predicate
+                if isinstance(qe, ast.Lambda):
+                    always = isinstance(qe.body, ast.Constant) and qe.body.value is True
+                    if m == 1:
+                        rr.ok({"pattern": text, "predicate": unparse(qe), "needs": "nothing (all fields present)"})
+                    else:
+                        rr.fail(f.qual, f"pattern `{text}` drops components but its predicate is `{unparse(qe)}`" + (" (always true)" if always else ""), ctx.loc(f, qe))
+                    continue
+                g = M.find_method(par, qe.attr) if isinstance(qe, ast.Attribute) else None
+                if g is None:
+                    rr.fail(f.qual, f"predicate `{unparse(qe)}` not resolved", ctx.loc(f, qe))
+                    continue
+                if m == 1:
+                    rr.ok({"pattern": text, "predicate": g.name, "needs": "nothing"})
+                    continue
+                rets = [n.value for n in own_nodes(g.node) if isinstance(n, ast.Return) and n.value is not None]
+                proved = False
+                if len(rets) == 1 and len(g.body) <= 2 and isinstance(rets[0], ast.Compare) and len(rets[0].ops) == 1 and isinstance(rets[0].ops[0], ast.Eq) \
+                        and isinstance(rets[0].comparators[0], ast.Constant) and rets[0].comparators[0].value == 0:
+                    lhs = rets[0].left
+                    a = b = None
+                    if isinstance(lhs, ast.Call) and unparse(lhs.func).endswith("_csharp_modulo") and len(lhs.args) == 2:
+                        a, b = lhs.args
+                    elif isinstance(lhs, ast.BinOp) and isinstance(lhs.op, ast.Mod):
+                        a, b = lhs.left, lhs.right
+                    if a is not None and isinstance(a, ast.Attribute) and isinstance(a.value, ast.Name) and a.value.id == g.params[0].arg and a.attr in unit:
+                        C = M.fold(b, g.cls, g.mod)
+                        if isinstance(C, int) and C > 0:
+                            if C % (m * unit[a.attr]) == 0:
+                                proved = True
+                                rr.ok({"pattern": text, "predicate": g.name, "form": f"offset.{a.attr} % {C} == 0", "implies seconds %": m})
+                            else:
+                                rr.fail(g.qual, f"selects pattern `{text}` when offset.{a.attr} % {C} == 0, which does not imply offset.seconds % {m} == 0: the dropped component can be non-zero", ctx.loc(g))
+                                continue
+                if proved:
+                    continue
+                # not of the recognised form: look for a definite counterexample by exact abstract evaluation
+                sample = sorted({s * sg for k in range(0, 121) for d in (0, 1, 29, 30, 59) for sg in (1, -1) for s in [60 * k + d] if s <= 64800}) if ctx.tier == "quick" else range(-7200, 7201)
+                cex = None
+                for s in sample:
+                    if s % m == 0:
+                        continue
+                    I = interp(ctx)
+                    I.max_depth = 4
+                    r2, _ = I.analyse(g, params={g.params[0].arg: Obj("Offset", {mangle("Offset", "__seconds"): Iv(s, s)})})
+                    rr.states += 1
+                    vals = {bool(v.lo) for v, _ in r2 if isinstance(v, Iv) and v.const}
+                    if len(r2) >= 1 and vals == {True}:
+                        cex = s
+                        break
+                if cex is not None:
+                    rr.fail(g.qual, f"selects pattern `{text}` for an offset of {cex} seconds, whose seconds are not a multiple of {m}: formatting drops the remainder and the text parses back to a different offset", ctx.loc(g))
+                else:
+                    rr.undecided.append(f"{g.qual}: not of the form `offset.<unit> % C == 0`; no counterexample among the offsets evaluated (not a proof)")
+                    rr.ok()
+    return rr
+
+
+@rule("C07")
+def r07_10_half_day(ctx: Ctx) -> RuleResult:
+    """AM/PM: the formatter writes the PM designator exactly for hours 12..23; the parser must (a) reject a 24-hour value whose half
+    of the day differs from the parsed designator using that same split, and (b) rebuild the hour from 12-hour value and
+    designator as h12 % 12 + 12 * pm.  Each expression involved is evaluated by the abstract interpreter for every hour
+    0..23 (exact integers) and compared with h // 12 - however the expression is spelt."""
+    from ..absint import Iv, Obj, State
+    from ..oblig import interp
+
+    rr = RuleResult("R07.10", "AM/PM split: format writes PM iff hour >= 12; parse checks and rebuilds the hour with the same split (evaluated for every hour)", min_instances=4)
+    M = ctx.M
+    bucket = next((c for c in M.all_classes() if c.name == "_LocalTimeParseBucket"), None)
+    if bucket is None:
+        raise AnalysisError("_LocalTimeParseBucket not found")
+    f = next((g for g in bucket.all_defs if g.name.endswith("determine_hour")), None)
+    if f is None:
+        raise AnalysisError("_LocalTimeParseBucket.__determine_hour not found")
+
+    def ev(expr: ast.expr, fields: dict[str, int], fn) -> Any:  # noqa: ANN401
+        I = interp(ctx)
+        I.max_depth = 4
+        st = State({fn.self_name or "self": Obj(bucket.name, {k: Iv(v, v) for k, v in fields.items()})})
+        return I.ev(expr, st, fn, 0)
+
+    # (a) consistency test between the 24-hour value and the designator
+    for n in own_nodes(f.node):
+        if isinstance(n, ast.Compare) and len(n.ops) == 1 and isinstance(n.ops[0], (ast.NotEq, ast.Eq)):
+            sides = [n.left, n.comparators[0]]
+            ap = [s for s in sides if unparse(s) == "self._am_pm"]
+            other = [s for s in sides if s not in ap]
+            if len(ap) == 1 and other and "_hours_24" in unparse(other[0]):
+                rr.inst()
+                bad = None
+                for h in range(24):
+                    v = ev(other[0], {"_hours_24": h}, f)
+                    rr.states += 1
+                    if not (isinstance(v, Iv) and v.const and int(v.lo) == h // 12):
+                        bad = (h, repr(v))
+                        break
+                if bad is None:
+                    rr.ok({"check": unparse(n)[:80], "hours": 24})
+                else:
+                    rr.fail(f.qual, f"the 24-hour / designator consistency test uses `{unparse(other[0])[:60]}`, which is {bad[1]} for hour {bad[0]} while the formatter writes {'PM' if bad[0] >= 12 else 'AM'} (= {bad[0] // 12}): text produced by format is rejected", ctx.loc(f, n))
+    # (b) recomposition from 12-hour value and designator
+    for n in own_nodes(f.node):
+        if isinstance(n, ast.Assign) and len(n.targets) == 1 and unparse(n.targets[0]) == "hour" and "_am_pm" in unparse(n.value) and "_hours_12" in unparse(n.value):
+            rr.inst()
+            bad = None
+            for h in range(24):
+                h12 = 12 if h % 12 == 0 else h % 12
+                v = ev(n.value, {"_hours_12": h12, "_am_pm": h // 12}, f)
+                rr.states += 1
+                if not (isinstance(v, Iv) and v.const and int(v.lo) == h):
+                    bad = (h, h12, repr(v))
+                    break
+            if bad is None:
+                rr.ok({"compose": unparse(n.value)[:80], "hours": 24})
+            else:
+                rr.fail(f.qual, f"hour {bad[0]} is written as {bad[1]} {'PM' if bad[0] >= 12 else 'AM'} but `{unparse(n.value)[:60]}` rebuilds {bad[2]}", ctx.loc(f, n))
+    # (c) the formatter's split
+    for g in sorted(set(M.func_of_node.values()), key=lambda x: x.qual):
+        if isinstance(g.node, ast.Lambda) or not g.mod.rel.endswith("_time_pattern_helper.py"):
+            continue
+        for n in own_nodes(g.node):
+            if isinstance(n, ast.IfExp) and "pm_designator" in unparse(n.body) and "am_designator" in unparse(n.orelse) and isinstance(n.test, ast.Compare):
+                call = next((c for c in ast.walk(n.test) if isinstance(c, ast.Call) and isinstance(c.func, ast.Name) and "getter" in c.func.id), None)
+                if call is None:
+                    continue  # a choice between the designators that does not look at the value (pattern-creation time)
+                rr.inst()
+                bad = None
+                if True:
+                    import copy
+
+                    for h in range(24):
+                        t = copy.deepcopy(n.test)
+                        for x in ast.walk(t):
+                            for fld, val in ast.iter_fields(x):
+                                if isinstance(val, ast.Call) and unparse(val) == unparse(call):
+                                    setattr(x, fld, ast.Constant(h))
+                                elif isinstance(val, list):
+                                    for i, e in enumerate(val):
+                                        if isinstance(e, ast.Call) and unparse(e) == unparse(call):
+                                            val[i] = ast.Constant(h)
+                        ast.fix_missing_locations(t)
+                        I = interp(ctx)
+                        v = I.ev(t, State({}), g, 0)
+                        rr.states += 1
+                        if not (isinstance(v, Iv) and v.const and bool(v.lo) == (h >= 12)):
+                            bad = (h, repr(v))
+                            break
+                if bad is None:
+                    rr.ok({"format": unparse(n.test)[:60], "hours": 24})
+                else:
+                    rr.fail(g.qual, f"the formatter chooses the PM designator on `{unparse(n.test)[:60]}`, which is {bad[1]} for hour {bad[0]}", ctx.loc(g, n))
+    return rr
